@@ -65,7 +65,8 @@ def install_qforward_contract(E, cache):
             R0, R1 = z3.Ints("R0 R1")
             E2.assume(R0 >= 1)
             E2.assume(R1 >= 1)
-            cache[key] = new_input(E2, f"RAW", "float32", [R0, R1])
+            dt_ = x.dtype if isinstance(x, STensor) else (x.fields["_w_dtype"].name if hasattr(x, "fields") and "_w_dtype" in x.fields else "float32")
+            cache[key] = new_input(E2, f"RAW", dt_, [R0, R1])
         return cache[key]
 
     for key in (f"{QLIN}::QLinear.qforward", f"{QCONV}::QConv2d.qforward", f"{QLN}::QLayerNorm.qforward"):
@@ -75,10 +76,12 @@ def install_qforward_contract(E, cache):
 def step_contracts(run):
     for kind in ("linear", "conv2d", "layernorm"):
         for aq in ("qint8", "qfloat8_e4m3fn", "qfloat8_e5m2"):
-            for hook in ("input-float", "input-quantized", "output"):
+            for hook, dt in [(h_, d_) for h_ in ("input-float", "input-quantized", "output") for d_ in ("float32", "float16")]:
                 if run.tier == "quick" and kind != "linear" and aq != "qint8":
                     continue
-                inst = {"module": kind, "activations": aq, "hook": hook}
+                if dt == "float16" and not (kind == "linear" and aq == "qint8" and hook != "input-quantized"):
+                    continue   # half-precision module: the dtype clause (values are decided in the real algebra, the same for every dtype)
+                inst = {"module": kind, "activations": aq, "hook": hook, "dtype": dt}
                 run.count_instance(**inst)
                 E = engine(run)
                 cache = {}
@@ -88,7 +91,7 @@ def step_contracts(run):
                 init = z3.Bool("ghost_init")
                 g = z3.Real("ghost_ema")
 
-                def prog(E2, kind=kind, aq=aq, hook=hook):
+                def prog(E2, kind=kind, aq=aq, hook=hook, dt=dt):
                     E2.assume(m_ >= 0)
                     E2.assume(m_ < 1)
                     calcls = E2.get(f"{CAL}::Calibration")
@@ -97,21 +100,21 @@ def step_contracts(run):
                     which = "input_scale" if hook.startswith("input") else "output_scale"
                     # the scale currently stored (symbolic), related to the ghost EMA state by Rep
                     E2.assume(z3.Or(z3.And(z3.Not(init), s0 == 1), z3.And(init, s0 == g)))
-                    st = STensor("float32", [], lambda idx: s0, device="cpu", name="S0")
+                    st = STensor(dt, [], lambda idx: s0, device="cpu", name="S0")
                     E2.setattr(mod, which, st)
                     B = z3.Int("B")
                     E2.assume(B >= 1)
                     before = {k: v for k, v in mod.fields.items()}
                     if hook == "input-float":
-                        x = new_input(E2, "X", "float32", [B, F])
+                        x = new_input(E2, "X", dt, [B, F])
                         ret = E2.call(E2.getattr(cal, "calibrate_input"), [mod, (x,)], {})
                     elif hook == "input-quantized":
                         h = OC.H(E2, aq, None)
                         x = h.q([B, F], name="X")
                         ret = E2.call(E2.getattr(cal, "calibrate_input"), [mod, (x,)], {})
                     else:
-                        x = new_input(E2, "X", "float32", [B, F])
-                        out0 = new_input(E2, "OUT0", "float32", [B, O])
+                        x = new_input(E2, "X", dt, [B, F])
+                        out0 = new_input(E2, "OUT0", dt, [B, O])
                         ret = E2.call(E2.getattr(cal, "calibrate_output"), [mod, (x,), out0], {})
                     return cal, mod, x, ret, before
 
@@ -121,7 +124,7 @@ def step_contracts(run):
                     run.undecide(f"C12/step[{kind}/{aq}/{hook}]", u, inst)
                     continue
                 run.absorb(E)
-                tag = f"{kind}/{aq}/{hook}"
+                tag = f"{kind}/{aq}/{hook}" + ("" if dt == "float32" else f"/{dt}")
                 if not run.expect_paths(res, f"C12/{tag}", inst):
                     continue
                 rp = lambda mo, sd, i=dict(inst): replay(mo, sd, i, scale_one="never")
@@ -139,6 +142,8 @@ def step_contracts(run):
                         run.add(f"C12/scale-is-a-0-dim-tensor[{tag}]/path{pi}", r.hyps, z3.BoolVal(False), "property", inst, replay=rp)
                         continue
                     new = new_t.elem([])
+                    run.add(f"C12/scale-keeps-the-dtype-of-the-module[{tag}]/path{pi}", r.hyps, z3.BoolVal(new_t.dtype == dt), "property", inst, {"scale_dtype": new_t.dtype, "module_dtype": dt},
+                            replay=lambda mo, sd, i=dict(inst): replay_dtype(mo, sd, i))
                     reds = [ri for ri in E.ps.get("reductions", []) if ri.kind == "amax"]
                     facts = E.drain()
                     # frame: only this module's scale (of this direction) is written
@@ -251,6 +256,25 @@ def replay(model, seed, inst, scale_one="any"):
                     if not torch.allclose(qlin.input_scale, exp_in, rtol=1e-4, atol=1e-8):
                         return {"momentum": m, "batch": k, "magnitudes": mags, "input_scale": qlin.input_scale.item(), "expected_ema": float(exp_in),
                                 "what": "input scale is not the configured-momentum EMA of absmax/qmax"}
+    return None
+
+
+def replay_dtype(model, seed, inst):
+    """Calibrating a half-precision module over several batches leaves its scales (and outputs) in that dtype."""
+    import torch
+    from optimum.quanto import Calibration, qtypes
+    from optimum.quanto.nn import QLinear
+
+    torch.manual_seed(seed)
+    dt = {"float16": torch.float16, "float32": torch.float32}[inst.get("dtype", "float32")]
+    lin = torch.nn.Linear(4, 3).to(dt)
+    qlin = QLinear.from_module(lin, weights=qtypes["qint8"], activations=qtypes[inst["activations"]])
+    with torch.no_grad(), Calibration(momentum=0.9, streamline=False):
+        for k in range(3):
+            qlin(torch.randn(2, 4).to(dt) * (k + 1))
+    for nm in ("input_scale", "output_scale"):
+        if getattr(qlin, nm).dtype != dt:
+            return {"what": f"after calibration {nm} is {getattr(qlin, nm).dtype}, the module is {dt}"}
     return None
 
 
